@@ -230,15 +230,55 @@ def build_harness(profile="debug"):
     return res
 
 
+def _limit_mem():
+    import resource
+    try:
+        resource.setrlimit(resource.RLIMIT_AS, (6 << 30, 6 << 30))
+    except Exception:
+        pass
+
+
 def run_harness(cases, profile="debug", timeout=900):
-    """cases: list of dicts. returns list of result dicts (same order)"""
+    """cases: list of dicts. returns list of result dicts (same order).
+    A case on which the implementation hangs (watchdog) or dies (memory limit / abort) yields {"r": "HANG"};
+    the harness is restarted on the remaining cases."""
     exe = os.path.join(HARNESS, "target", profile, "pp_harness")
-    inp = "\n".join(json.dumps(c, separators=(",", ":")) for c in cases) + "\n"
-    rc, out, err = sh([exe], input_=inp, timeout=timeout)
-    lines = [l for l in out.split("\n") if l.strip()]
-    if rc != 0 or len(lines) != len(cases):
-        raise RuntimeError("harness run failed rc=%s, %d/%d lines: %s" % (rc, len(lines), len(cases), err[-2000:]))
-    return [json.loads(l) for l in lines]
+    results = []
+    pos = 0
+    restarts = 0
+    t_end = time.time() + timeout
+    while pos < len(cases):
+        chunk = cases[pos:]
+        inp = "\n".join(json.dumps(c, separators=(",", ":")) for c in chunk) + "\n"
+        try:
+            p = subprocess.run([exe], input=inp, stdout=subprocess.PIPE, stderr=subprocess.PIPE, text=True,
+                               timeout=max(5, t_end - time.time()), preexec_fn=_limit_mem)
+        except subprocess.TimeoutExpired:
+            raise RuntimeError("harness run exceeded %ss" % timeout)
+        lines = [l for l in p.stdout.split("\n") if l.strip()]
+        got = []
+        for l in lines:
+            try:
+                got.append(json.loads(l))
+            except ValueError:
+                break
+        if p.returncode == 0 and len(got) == len(chunk):
+            results += got
+            break
+        # abnormal end: everything fully reported is kept; the case being run is a HANG / crash
+        if got and got[-1].get("r") == "HANG":
+            done = got[:-1]
+        else:
+            done = got
+        results += done
+        results.append({"r": "HANG", "msg": "no result within the per-case limit, or the process died (rc=%s): %s" % (p.returncode, p.stderr[-300:])})
+        pos += len(done) + 1
+        restarts += 1
+        if restarts > 40:
+            raise RuntimeError("harness keeps dying: %s" % p.stderr[-1000:])
+    if len(results) != len(cases):
+        raise RuntimeError("harness produced %d results for %d cases" % (len(results), len(cases)))
+    return results
 
 
 # ------------------------------------------------------------------ model execution inside Coq
